@@ -4,8 +4,8 @@ go 1.24.4
 
 require (
 	github.com/NVIDIA/KAI-scheduler v0.0.0
-	github.com/anishathalye/porcupine v1.3.0
 	github.com/NVIDIA/gpu-operator v1.8.3-0.20250724212111-616690d88d86
+	github.com/anishathalye/porcupine v1.3.0
 	github.com/go-logr/logr v1.4.3
 	github.com/prometheus-operator/prometheus-operator/pkg/apis/monitoring v0.88.0
 	k8s.io/api v0.34.3
@@ -13,6 +13,7 @@ require (
 	k8s.io/apimachinery v0.34.3
 	k8s.io/client-go v0.34.3
 	k8s.io/klog/v2 v2.130.1
+	k8s.io/kubernetes v1.34.2
 	k8s.io/utils v0.0.0-20251002143259-bc988d571ff4
 	sigs.k8s.io/controller-runtime v0.22.3
 )
@@ -130,7 +131,6 @@ require (
 	k8s.io/kube-scheduler v0.34.1 // indirect
 	k8s.io/kubectl v0.34.1 // indirect
 	k8s.io/kubelet v0.34.1 // indirect
-	k8s.io/kubernetes v1.34.2 // indirect
 	k8s.io/metrics v0.34.1 // indirect
 	k8s.io/mount-utils v0.34.1 // indirect
 	k8s.io/pod-security-admission v0.34.1 // indirect
